@@ -15,6 +15,8 @@ THEOREMS = [
     "Remoc.Table.Sys.request_credit_invariant",
     "Remoc.Table.Sys.request_located_once",
     "Remoc.Table.Sys.listen_queue_has_room",
+    "Remoc.Table.Sys.pairs_right_global",
+    "Remoc.Table.Sys.pairs_mutual",
 ]
 RULE = ("same runs as C07. Predicates on the real run: unanswered OpenPort requests on the wire never exceed the connect_queue the "
         "peer advertised (at every prefix); every connect/accept/inspect/request call returns at most once and none is pending "
